@@ -122,7 +122,7 @@ def rand_msg(rng, allow_fds=True, big_ok=True):
         n = 0
     elif r < 0.75:
         n = rng.randint(1, 64)
-    elif r < 0.95:
+    elif r < 0.98:
         n = rng.randint(65, 2000)
     else:
         n = rng.choice([4096, 16384, 65536 - 48, 65536])
